@@ -4,11 +4,12 @@
 # the pinned stable baseline (/root/.vp/BASELINE.json: stable_pass) passes.  Removes the
 # scratch directory afterwards.
 set -u
+R=${1:-/repo}
 D=$(mktemp -d /tmp/wv_baseline_XXXXXX)
 trap 'rm -rf "$D"' EXIT
 GT=$(grep -m1 '^GTest_DIR:PATH=' /repo/_build/CMakeCache.txt 2>/dev/null | cut -d= -f2)
 [ -z "$GT" ] && GT=/root/miniconda/lib/cmake/GTest
-cmake -G Ninja -S /repo -B "$D/b" -DCMAKE_BUILD_TYPE=RelWithDebInfo -DCMAKE_CXX_FLAGS=-Wno-error -DGTest_DIR="$GT" >"$D/cmake.log" 2>&1 || { tail -30 "$D/cmake.log"; echo "BASELINE: configure failed"; exit 1; }
+cmake -G Ninja -S "$R" -B "$D/b" -DCMAKE_BUILD_TYPE=RelWithDebInfo -DCMAKE_CXX_FLAGS=-Wno-error -DGTest_DIR="$GT" >"$D/cmake.log" 2>&1 || { tail -30 "$D/cmake.log"; echo "BASELINE: configure failed"; exit 1; }
 cmake --build "$D/b" -j16 >"$D/build.log" 2>&1 || { tail -40 "$D/build.log"; echo "BASELINE: build failed"; exit 1; }
 # the end-to-end tests share fixed file names in the cwd, so they are run with -j1 per executable dir
 python3 - "$D" <<'PY'
